@@ -440,7 +440,7 @@ PROPS = {
     "C14": {
         "modules": ["Sheens.Props.C14"],
         "theorems": [],
-        "facts": ["routing_sites"],
+        "facts": ["routing_sites", "crew_processmsg_skeleton"],
         "runs": {
             "quick": [("crew", ["-profile", "crew", "-n", "1500"]),
                       ("mcrewgen", ["-profile", "mcrew", "-n", "150"], {"overlay": MCREW_OVERLAY})],
@@ -455,7 +455,7 @@ PROPS = {
     "C15": {
         "modules": ["Sheens.Props.C15"],
         "theorems": [],
-        "facts": [],
+        "facts": ["crew_changes_skeleton", "crew_setmachine_skeleton", "crew_processmsg_skeleton"],
         "runs": {
             "quick": [("crew", ["-profile", "crew", "-n", "2000"]),
                       ("siohostgen", ["-n", "400"], {"overlay": SIO_HOST_OVERLAY})],
@@ -499,7 +499,7 @@ PROPS = {
     "C19": {
         "modules": ["Sheens.Props.C19", "Sheens.Props.C19Exact"],
         "theorems": [],
-        "facts": [],
+        "facts": ["expect_run_skeleton"],
         "runs": {
             "quick": [("expect", ["-n", "800"])],
             "thorough": [("expect", ["-n", "6000"])],
@@ -517,7 +517,7 @@ PROPS = {
     "C20": {
         "modules": ["Sheens.Props.C20"],
         "theorems": [],
-        "facts": [],
+        "facts": ["analyze_skeleton"],
         "runs": {
             "quick": [("tools", ["-n", "10000"])],
             "thorough": [("tools", ["-n", "40000"])],
@@ -533,7 +533,7 @@ PROPS = {
     "C13": {
         "modules": ["Sheens.Props.C13"],
         "theorems": [],
-        "facts": [],
+        "facts": ["compile_skeleton", "parsepatterns_skeleton"],
         "runs": {
             "quick": [("compile", ["-n", "3000"])],
             "thorough": [("compile", ["-n", "10000"])],
